@@ -200,7 +200,7 @@ def generate(rng, tier):
 
 
 FITTED = ["trend", "spline", "knn", "linear", "cubic", "chain_block_trend", "chain_blockmean_spline", "chain_trend_knn", "vector",
-          "chain_block_vector", "spline_forces", "splinecv_forces", "vectorspline_forces"]
+          "chain_block_vector", "spline_forces", "splinecv_forces", "vectorspline_forces", "checkerboard_reconfigured", "checkerboard_reconfigured"]
 
 
 def mk_fitted(which, seed, shape, spacing, kind):
@@ -231,8 +231,23 @@ def _fitted(a):
          "chain_blockmean_spline": lambda: vd.Chain([("mean", vd.BlockMean(spacing=2.5)), ("spline", vd.Spline(mindist=1.0, damping=1e-3))]),
          "chain_trend_knn": lambda: vd.Chain([("trend", vd.Trend(1)), ("knn", vd.KNeighbors(k=2))]),
          "vector": lambda: vd.Vector([vd.Trend(1), vd.Trend(2)]),
-         "chain_block_vector": lambda: vd.Chain([("reduce", red()), ("vector", vd.Vector([vd.Trend(1), vd.Trend(1)]))])}[which]()
-    g.fit((e, n), (d, d2) if vec else d)
+         "chain_block_vector": lambda: vd.Chain([("reduce", red()), ("vector", vd.Vector([vd.Trend(1), vd.Trend(1)]))]),
+         "checkerboard_reconfigured": lambda: vd.synthetic.CheckerBoard(amplitude=3.0, region=(-20.0, -4.0, 30.0, 41.0))}[which]()
+    if seed % 3 == 0 or which == "checkerboard_reconfigured":
+        # history: the same object was used before on ANOTHER survey / with another region, and its default region was looked up there
+        # (grid and scatter without `region=`); what counts afterwards is the latest fit / the current parameters
+        if which != "checkerboard_reconfigured":
+            g.fit((e[:25] * 0.5 - 40.0, n[:25] * 2.0 + 100.0), (d[:25], d2[:25]) if vec else d[:25])
+        g.grid(shape=(3, 4))
+        g.scatter(size=3, random_state=0)
+    if which == "checkerboard_reconfigured":
+        reg = [float(e.min()), float(e.max()), float(n.min()), float(n.max())]
+        if seed % 2:
+            g.set_params(region=tuple(reg))
+        else:
+            g.region = tuple(reg)
+    else:
+        g.fit((e, n), (d, d2) if vec else d)
     reg = [float(e.min()), float(e.max()), float(n.min()), float(n.max())]
     out = {"region_": [float(v) for v in g.region_], "bbox": reg}
     ds = g.grid(shape=shape, spacing=spacing)
